@@ -85,7 +85,9 @@ def len_obligations(prog):
             eqs = []
             for (b, pol) in _dominating_edges(f, el.blk):
                 nc = _norm_cond(b.cond, pol)
-                if nc and nc[0] == "==" and (lv in vars_in(nc[1]) or lv in vars_in(nc[2])):
+                # single-assignment locals stand for their definition (`n_chunks = aggsig_len / 32`)
+                if nc and nc[0] == "==" and (lv in vars_in(nc[1]) or lv in vars_in(nc[2]) or
+                                             lv in vars_in(_resolve(f, nc[1])) or lv in vars_in(_resolve(f, nc[2]))):
                     eqs.append("`%s` (%s) at %s" % (show(b.cond), "true" if pol else "false", b.term["loc"]))
             n += 1
             ok = len(eqs) >= need
